@@ -216,7 +216,7 @@ func runC05(c *kit.Ctx) {
 		judgeRefusal(o, sc, res, "the batch carries a NaN value")
 	}
 	// ---- R5 typestate
-	checkTxTypestate(c, m, r5)
+	checkTxTypestateFor(c, m, r5, false)
 	// ---- R6 handlers
 	checkHandlers(c, m, r6, nil, nil)
 	// ---- R7 two-step client operations
@@ -712,6 +712,13 @@ func checkWalkShape(c *kit.Ctx, m *storeModel, wf *kit.Func, o *kit.Ob) {
 // checkTxTypestate implements C05/R5 = C04/R2 on every function of package
 // store that begins a transaction.
 func checkTxTypestate(c *kit.Ctx, m *storeModel, r *kit.Rule) {
+	checkTxTypestateFor(c, m, r, true)
+}
+
+// checkTxTypestateFor: resultMatters = a nil result without a successful Commit is a
+// violation (C04: the write would be acknowledged); for C05 only the completion of the
+// transaction matters (a failed or unobserved commit leaves no trace of a refused write).
+func checkTxTypestateFor(c *kit.Ctx, m *storeModel, r *kit.Rule, resultMatters bool) {
 	for _, f := range c.P.Funcs("store") {
 		if f.Body == nil {
 			continue
@@ -721,11 +728,11 @@ func checkTxTypestate(c *kit.Ctx, m *storeModel, r *kit.Rule) {
 			continue
 		}
 		c.Analysed(f)
-		txTypestate(c, f, r)
+		txTypestate(c, f, r, resultMatters)
 	}
 }
 
-func txTypestate(c *kit.Ctx, f *kit.Func, r *kit.Rule) {
+func txTypestate(c *kit.Ctx, f *kit.Func, r *kit.Rule, resultMatters bool) {
 	info := f.Info()
 	st := &kit.Std{F: f}
 	st.ErrTag = func(call *ast.CallExpr, s kit.S) string {
@@ -787,7 +794,7 @@ func txTypestate(c *kit.Ctx, f *kit.Func, r *kit.Rule) {
 			} else if lf := f.CalleeFunc(d.Call); lf != nil && lf.Lit != nil && lf.Body != nil {
 				has := false
 				for _, call := range lf.AllCalls(false) {
-					if kit.CallIs(info, call, qRollback) {
+					if kit.CallIs(info, call, qRollback, qCommit) {
 						has = true
 					}
 				}
@@ -827,28 +834,37 @@ func txTypestate(c *kit.Ctx, f *kit.Func, r *kit.Rule) {
 		} else {
 			inits = []kit.S{s}
 		}
-		yes, no := 0, 0
+		yes, no, cm := 0, 0, 0
 		for _, in := range inits {
 			ds := &kit.Std{F: lf}
 			ds.OnCall = func(call *ast.CallExpr, n ast.Node, x kit.S) []kit.S {
 				if kit.CallIs(info, call, qRollback) {
 					return []kit.S{x.Set("drb", "1")}
 				}
+				if kit.CallIs(info, call, qCommit) {
+					return []kit.S{x.Set("dcm", "1")}
+				}
 				return nil
 			}
-			dres := f.Prog.Graph(lf).Run(in.Del("drb"), ds.Client())
+			dres := f.Prog.Graph(lf).Run(in.Del("drb").Del("dcm"), ds.Client())
 			for _, e := range dres.Exits {
-				if e.State.Get("drb") == "1" {
+				switch {
+				case e.State.Get("drb") == "1":
 					yes++
-				} else {
+				case e.State.Get("dcm") == "1":
+					cm++
+				default:
 					no++
 				}
 			}
 		}
 		switch {
-		case yes > 0 && no == 0:
+		case yes > 0 && no == 0 && cm == 0:
 			return "always"
-		case yes == 0:
+		case cm > 0 && no == 0:
+			// the closure finishes the transaction itself: commits (or rolls back)
+			return "commits"
+		case yes == 0 && cm == 0:
 			return "never"
 		}
 		return "sometimes"
@@ -884,6 +900,14 @@ func txTypestate(c *kit.Ctx, f *kit.Func, r *kit.Rule) {
 			switch deferredRolls(lf, e.State, rn) {
 			case "always":
 				tx = "rolledback"
+			case "commits":
+				// Commit runs in the deferred closure, after the value of an unnamed result
+				// has been fixed: only a named error result that receives Commit's result
+				// carries it to the caller
+				tx = "commitpending"
+				if errResult != nil && assignsCommitTo(lf, errResult) {
+					tx = "committed"
+				}
 			case "sometimes":
 				if v.bad == "" {
 					v.bad = "the deferred clean-up rolls the open transaction back only under a condition that is not decided at this exit"
@@ -914,7 +938,7 @@ func txTypestate(c *kit.Ctx, f *kit.Func, r *kit.Rule) {
 			}
 		case "commitpending":
 			// `return tx.Commit()` or returning the error variable unchanged
-			if rn == "nil" {
+			if rn == "nil" && resultMatters {
 				v.bad = "returns nil without looking at the result of Commit"
 				v.exit = e
 			} else {
@@ -923,7 +947,7 @@ func txTypestate(c *kit.Ctx, f *kit.Func, r *kit.Rule) {
 		case "committed":
 			v.ok = "after Commit returned nil"
 		case "commitfailed":
-			if rn == "nil" {
+			if rn == "nil" && resultMatters {
 				v.bad = "returns nil although Commit failed"
 				v.exit = e
 			} else {
@@ -952,6 +976,20 @@ func txTypestate(c *kit.Ctx, f *kit.Func, r *kit.Rule) {
 	for _, call := range bothSites {
 		r.Ob(f, call, "commit after rollback", "never both").Violation("Commit is reachable after Rollback")
 	}
+}
+
+// assignsCommitTo: the closure assigns the result of Commit to variable o.
+func assignsCommitTo(lf *kit.Func, o types.Object) bool {
+	found := false
+	ast.Inspect(lf.Body, func(n ast.Node) bool {
+		if as, ok := n.(*ast.AssignStmt); ok && len(as.Lhs) == 1 && len(as.Rhs) == 1 {
+			if call, ok := ast.Unparen(as.Rhs[0]).(*ast.CallExpr); ok && kit.CallIs(lf.Info(), call, qCommit) && kit.ObjOf(lf.Info(), as.Lhs[0]) == o {
+				found = true
+			}
+		}
+		return true
+	})
+	return found
 }
 
 // checkHandlers implements C05/R6 (error edge), and — when the rule handles
